@@ -476,7 +476,10 @@ impl RuntypeUUID {
                         .map(|it| it.ty.print_name_for_js_codegen(ctx.all_names))
                         .collect::<Vec<_>>();
                     let mut n = type_with_args_count;
-                    while declared.contains(&final_name) {
+                    // ... nor a name already given to another instance (moving away from a declared name can land on one)
+                    while declared.contains(&final_name)
+                        || ctx.type_with_args_names.values().any(|it| it == &final_name)
+                    {
                         final_name = format!("{}_instance_{}", base, n);
                         n += 1;
                     }
